@@ -1,7 +1,295 @@
-// Package c09 interprets the C09 op language against the real packages (stub).
+// Package c09 interprets the C09 op language against the real core/stat/base package: rounds of
+// threads run under the deterministic yield-hook scheduler (internal/sched), plus a randomized
+// parallel stress with the real Go scheduler (no hooks).
+//
+//	la.new <n> <I> <t0>                      fresh BucketLeapArray(n, I) created at clock t0 (ms)
+//	view <sc> <Iv>                           the SlidingWindowMetric used by `viewsum` (default 1 x I)
+//	thread <tid> <clock-ms> <op> [; <op>]…   thread of the next round, started at that clock reading
+//	                                         ops: add <ev> <amt> | conc <c> | count <ev> | viewsum <ev>
+//	sched <tid | tick:<ms>>…                 run the round => [round] res=[…|…] pts=[…|…] final=[…] clock=<ms>
+//	stress <writers> <readers> <adds> <n> <I> <seed>   => ok | bad …
 package c09
 
-import "verifharness/internal/vh"
+import (
+	"fmt"
+	"math/rand"
+	"strings"
+	"sync"
+	"sync/atomic"
+	"time"
 
-// New returns the interpreter for C09.
-func New() vh.Interp { return nil }
+	"github.com/alibaba/sentinel-golang/core/base"
+	sbase "github.com/alibaba/sentinel-golang/core/stat/base"
+	"github.com/alibaba/sentinel-golang/util"
+	"verifharness/internal/sched"
+	"verifharness/internal/vh"
+)
+
+type opSpec struct {
+	kind string // add conc count viewsum
+	ev   base.MetricEvent
+	amt  int64
+}
+
+type thread struct {
+	clock uint64
+	prog  []opSpec
+}
+
+type Interp struct {
+	clk     *vh.Clock
+	la      *sbase.BucketLeapArray
+	view    *sbase.SlidingWindowMetric
+	threads []thread
+}
+
+func New() vh.Interp {
+	vh.Silence()
+	c := &vh.Clock{}
+	vh.Install(c)
+	return &Interp{clk: c}
+}
+
+func (it *Interp) Reset() {
+	vh.Install(it.clk)
+	it.la, it.view, it.threads = nil, nil, nil
+}
+
+func ev(s string) base.MetricEvent {
+	switch s {
+	case "pass":
+		return base.MetricEventPass
+	case "block":
+		return base.MetricEventBlock
+	case "complete":
+		return base.MetricEventComplete
+	case "error":
+		return base.MetricEventError
+	case "rt":
+		return base.MetricEventRt
+	}
+	panic("bad event " + s)
+}
+
+func parseProg(t []string) []opSpec {
+	var prog []opSpec
+	for i := 0; i < len(t); {
+		j := i
+		for j < len(t) && t[j] != ";" {
+			j++
+		}
+		o := t[i:j]
+		switch {
+		case len(o) == 3 && o[0] == "add":
+			prog = append(prog, opSpec{"add", ev(o[1]), int64(vh.U(o[2]))})
+		case len(o) == 2 && o[0] == "conc":
+			prog = append(prog, opSpec{"conc", 0, int64(vh.U(o[1]))})
+		case len(o) == 2 && o[0] == "count":
+			prog = append(prog, opSpec{"count", ev(o[1]), 0})
+		case len(o) == 2 && o[0] == "viewsum":
+			prog = append(prog, opSpec{"viewsum", ev(o[1]), 0})
+		default:
+			panic("bad op " + strings.Join(o, " "))
+		}
+		i = j + 1
+	}
+	return prog
+}
+
+func (it *Interp) Step(t []string, op string) string {
+	switch t[0] {
+	case "la.new":
+		n, I, t0 := vh.U(t[1]), vh.U(t[2]), vh.U(t[3])
+		if n == 0 || I%n != 0 || I/n == 0 || t0 == 0 {
+			return "bad-op"
+		}
+		it.clk.SetMs(t0)
+		it.la = sbase.NewBucketLeapArray(uint32(n), uint32(I))
+		m, err := sbase.NewSlidingWindowMetric(1, uint32(I), it.la)
+		if err != nil {
+			panic(err)
+		}
+		it.view, it.threads = m, nil
+		return ""
+	case "view":
+		m, err := sbase.NewSlidingWindowMetric(uint32(vh.U(t[1])), uint32(vh.U(t[2])), it.la)
+		if err != nil {
+			switch err {
+			case base.IllegalStatisticParamsError:
+				return "err 1"
+			case base.IllegalGlobalStatisticParamsError:
+				return "err 2"
+			case base.GlobalStatisticNonReusableError:
+				return "err 3"
+			}
+			return "err ?"
+		}
+		it.view = m
+		return "ok"
+	case "thread":
+		tid, ck := int(vh.U(t[1])), vh.U(t[2])
+		last := it.clk.CurrentTimeMillis()
+		if len(it.threads) > 0 {
+			last = it.threads[len(it.threads)-1].clock
+		}
+		if it.la == nil || tid != len(it.threads) || ck < last {
+			return "bad-op"
+		}
+		it.threads = append(it.threads, thread{ck, parseProg(t[3:])})
+		return ""
+	case "sched":
+		if it.la == nil || len(it.threads) == 0 {
+			return "bad-op"
+		}
+		es, err := sched.ParseSchedule(t[1:])
+		if err != nil {
+			return "bad-op"
+		}
+		return it.round(es)
+	case "stress":
+		return stress(int(vh.U(t[1])), int(vh.U(t[2])), int(vh.U(t[3])), uint32(vh.U(t[4])), uint32(vh.U(t[5])), int64(vh.U(t[6])), it.clk)
+	}
+	return "bad-op"
+}
+
+func (it *Interp) round(es []sched.Entry) string {
+	ths := it.threads
+	it.threads = nil
+	res := make([][]string, len(ths))
+	workers := make([]func(), len(ths))
+	for i := range ths {
+		i := i
+		workers[i] = func() {
+			for _, o := range ths[i].prog {
+				// exactly one worker runs at any time: this is the clock reading the operation itself takes
+				now := it.clk.CurrentTimeMillis()
+				val := "-"
+				switch o.kind {
+				case "add":
+					it.la.AddCount(o.ev, o.amt)
+				case "conc":
+					it.la.UpdateConcurrency(int32(o.amt))
+				case "count":
+					val = fmt.Sprint(it.la.Count(o.ev))
+				case "viewsum":
+					val = fmt.Sprint(it.view.GetSum(o.ev))
+				}
+				res[i] = append(res[i], fmt.Sprintf("%d:%s", now, val))
+			}
+		}
+	}
+	rep := sched.Run(workers, es, sched.Options{
+		Prefixes:    []string{"la.", "bla.", "mb."},
+		BeforeStart: func(tid int) { it.clk.SetMs(ths[tid].clock) },
+		OnTick:      func(ms uint64) { it.clk.Ns += ms * 1e6 },
+		StepTimeout: 5 * time.Second,
+		MaxSteps:    200000,
+	})
+	if rep.Err != nil {
+		return "sched-error " + strings.ReplaceAll(rep.Err.Error(), "\n", " ")
+	}
+	rs := make([]string, len(ths))
+	ps := make([]string, len(ths))
+	for i := range ths {
+		if rep.Threads[i].Panic != nil {
+			res[i] = append(res[i], fmt.Sprintf("PANIC(%v)", rep.Threads[i].Panic))
+		}
+		rs[i] = strings.Join(res[i], ",")
+		ps[i] = strings.Join(rep.Threads[i].Points, ",")
+	}
+	now := it.clk.CurrentTimeMillis()
+	return fmt.Sprintf("[round] res=[%s] pts=[%s] final=%s clock=%d", strings.Join(rs, "|"), strings.Join(ps, "|"), it.final(now), now)
+}
+
+// final prints the valid buckets at `now`, read without refresh (no state change).
+func (it *Interp) final(now uint64) string {
+	var xs []string
+	for _, w := range it.la.ValuesConditional(now, func(uint64) bool { return true }) {
+		mb := w.Value.Load().(*sbase.MetricBucket)
+		xs = append(xs, fmt.Sprintf("%d:%d:%d:%d:%d:%d:%d:%d", atomic.LoadUint64(&w.BucketStart),
+			mb.Get(base.MetricEventPass), mb.Get(base.MetricEventBlock), mb.Get(base.MetricEventComplete),
+			mb.Get(base.MetricEventError), mb.Get(base.MetricEventRt), mb.MinRt(), mb.MaxConcurrency()))
+	}
+	return "[" + strings.Join(xs, ",") + "]"
+}
+
+// ---------------------------------------------------------------------------------------------
+// randomized parallel stress, real scheduler, no hooks: reported <= started at every read
+// ---------------------------------------------------------------------------------------------
+
+type atomicClock struct{ ms uint64 }
+
+func (c *atomicClock) Now() time.Time            { return time.Unix(0, int64(atomic.LoadUint64(&c.ms))*1e6) }
+func (c *atomicClock) Sleep(d time.Duration)     { time.Sleep(d) }
+func (c *atomicClock) CurrentTimeMillis() uint64 { return atomic.LoadUint64(&c.ms) }
+func (c *atomicClock) CurrentTimeNano() uint64   { return atomic.LoadUint64(&c.ms) * 1e6 }
+
+func stress(writers, readers, adds int, n, I uint32, seed int64, restore *vh.Clock) string {
+	if n == 0 || I%n != 0 || I/n == 0 || writers <= 0 || readers <= 0 {
+		return "bad-op"
+	}
+	clk := &atomicClock{ms: 1000000}
+	util.SetClock(clk)
+	defer vh.Install(restore)
+	la := sbase.NewBucketLeapArray(n, I)
+	view, err := sbase.NewSlidingWindowMetric(1, I, la)
+	if err != nil {
+		return "bad-op"
+	}
+	var started [5]int64 // per event: Σ amounts whose AddCount has been entered
+	var bad atomic.Value
+	var stop int32
+	var wg, rg sync.WaitGroup
+	L := uint64(I / n)
+	// the clock runs fast: many rollovers during the run
+	rg.Add(1)
+	go func() {
+		defer rg.Done()
+		r := rand.New(rand.NewSource(seed))
+		for atomic.LoadInt32(&stop) == 0 {
+			atomic.AddUint64(&clk.ms, uint64(r.Intn(int(L)))+1)
+			time.Sleep(20 * time.Microsecond)
+		}
+	}()
+	for w := 0; w < writers; w++ {
+		wg.Add(1)
+		go func(w int) {
+			defer wg.Done()
+			r := rand.New(rand.NewSource(seed*1000 + int64(w)))
+			for k := 0; k < adds; k++ {
+				e := base.MetricEvent(r.Intn(4)) // pass, block, complete, error
+				amt := int64(r.Intn(5) + 1)
+				atomic.AddInt64(&started[e], amt)
+				la.AddCount(e, amt)
+			}
+		}(w)
+	}
+	for rd := 0; rd < readers; rd++ {
+		rg.Add(1)
+		go func(rd int) {
+			defer rg.Done()
+			r := rand.New(rand.NewSource(seed*7777 + int64(rd)))
+			for atomic.LoadInt32(&stop) == 0 {
+				e := base.MetricEvent(r.Intn(4))
+				var v int64
+				if r.Intn(2) == 0 {
+					v = la.Count(e)
+				} else {
+					v = view.GetSum(e)
+				}
+				s := atomic.LoadInt64(&started[e])
+				if v > s || v < 0 {
+					bad.Store(fmt.Sprintf("bad invented: read %d of event %d, only %d started", v, e, s))
+					return
+				}
+			}
+		}(rd)
+	}
+	wg.Wait()
+	atomic.StoreInt32(&stop, 1)
+	rg.Wait()
+	if b := bad.Load(); b != nil {
+		return b.(string)
+	}
+	return "ok"
+}
